@@ -913,6 +913,9 @@ func (p *Printer) arithmExprRecurse(expr ArithmExpr, compact, spacePlusMinus boo
 		if compact {
 			p.arithmExprRecurse(expr.X, compact, spacePlusMinus)
 			p.w.WriteString(expr.Op.String())
+			if signsWouldJoin(expr.Op.String(), expr.Y) {
+				p.space() // "a - -b" must not become "a--b"
+			}
 			p.arithmExprRecurse(expr.Y, compact, false)
 		} else {
 			p.arithmExprRecurse(expr.X, compact, spacePlusMinus)
@@ -939,6 +942,8 @@ func (p *Printer) arithmExprRecurse(expr ArithmExpr, compact, spacePlusMinus boo
 				// "!" followed by a word triggers history expansion
 				// in interactive shells; a space prevents that.
 				p.space()
+			} else if signsWouldJoin(expr.Op.String(), expr.X) {
+				p.space() // "- -a" must not become "--a"
 			}
 			p.arithmExprRecurse(expr.X, compact, false)
 		}
@@ -952,6 +957,35 @@ func (p *Printer) arithmExprRecurse(expr ArithmExpr, compact, spacePlusMinus boo
 		p.w.WriteByte(')')
 		if expr.X != nil {
 			p.arithmExprRecurse(expr.X, compact, false)
+		}
+	}
+}
+
+// signsWouldJoin reports whether printing the arithmetic expression x right
+// after the operator op would glue two plus or minus signs into another
+// operator, such as "-" and "-b" becoming "--b".
+func signsWouldJoin(op string, x ArithmExpr) bool {
+	sign := ""
+	switch {
+	case strings.HasSuffix(op, "+"):
+		sign = "+"
+	case strings.HasSuffix(op, "-"):
+		sign = "-"
+	default:
+		return false
+	}
+	for {
+		switch y := x.(type) {
+		case *BinaryArithm:
+			x = y.X // the leftmost operand is printed first
+		case *UnaryArithm:
+			if y.Post {
+				x = y.X
+				continue
+			}
+			return strings.HasPrefix(y.Op.String(), sign)
+		default:
+			return false
 		}
 	}
 }
